@@ -60,6 +60,7 @@ func (c02) Run(t *tape.Tape, tier Tier) *Result {
 	// (transport fault): the receiver keeps what the sender computed, so the
 	// well-known sentinels it matched must still match and no other may start to
 	foreign := false
+	ownIs := spec.HasKind(func(k gen.Kind) bool { return k == gen.LUIsStd })
 	if spec.HasKind(func(k gen.Kind) bool { return k == gen.LErrno }) && t.Bool(1, 4) {
 		if d2, n := world.ForeignArchErrno(m1); n > 0 {
 			m1, foreign = d2, true
@@ -191,7 +192,11 @@ func (c02) Run(t *tape.Tape, tier Tier) *Result {
 				row := obs.IsRow(d.Err, refErrs)
 				sim.Logf("isrow(foreign) %s", row)
 				for i := range refs {
-					if refs[i].Native && row[i] != row0[i] && (row0[i] == 'F' || explain[i]) {
+					// a match with one of the OS predicates' sentinels came from
+					// the errno (whose predicates travel with it) unless a
+					// foreign type's own Is method could have produced it
+					osPred := refs[i].Name == "os.ErrNotExist" || refs[i].Name == "os.ErrExist" || refs[i].Name == "os.ErrPermission"
+					if refs[i].Native && row[i] != row0[i] && (row0[i] == 'F' || explain[i] || (osPred && !ownIs)) {
 						res.add(Violation{Prop: "C02", Oracle: "e-transferred-foreign-errno", Culprit: refCulprit(refs[i]) + ":" + string(row0[i]) + "->" + string(row[i]),
 							Expected: string(row0[i]), Observed: string(row[i]), Where: where + " ref=" + refs[i].Name})
 					}
